@@ -410,6 +410,31 @@ pub proof fn %(name)s_nostop_all(b: int, t: Seq<int>, n: int)
     }
 }""" % {"name": name, "B": b_name, "st": _in_set("#[trigger] t[i]", stops), "st1": _in_set("t.drop_first()[i - 1]", stops), "stj": _in_set("t.drop_first()[j]", stops)})
             lemmas += 2
+    no_reenter = all(B.step(b, c) != 0 for b in range(B.n) for c in pts)
+    if converse and stops and not all(B.step(b, d) < 0 for b in range(B.n) for d in stops) and no_reenter and all(B.step(b, d) < 0 for (a, b) in pairs if b > 0 for d in stops):
+        # in a REL pair whose B-state is not B's initial state, B never moves on a stop character
+        parts.append("proof fn %s_noreenter(b: int, c: int)\n    ensures %s_step(b, c) != 0,\n{ }" % (name, b_name))
+        for a in sorted(by):
+            parts.append("proof fn %s_pn%d(a: int, b: int, c: int)\n    requires a == %d, %s_rel(a, b), b > 0, %s_step(b, c) >= 0,\n    ensures !%s,\n{ }" % (name, a, a, name, b_name, _in_set("c", stops)))
+            lemmas += 1
+        pn_disp = "\n".join("        %s a == %d { %s_pn%d(a, b, c); %s_p%d(a, b, c); %s_s%d(a, b, c); }" % ("if" if j == 0 else "else if", a, name, a, name, a, name, a) for j, a in enumerate(sorted(by)))
+        parts.append("""/// forward simulation without a hypothesis on the text: past B's initial state, B never moves on a stop character
+pub proof fn %(name)s_fwd2(a: int, b: int, t: Seq<int>, n: int)
+    requires %(name)s_rel(a, b), b > 0, 0 <= n <= t.len(), %(B)s_at(b, t, n) >= 0,
+    ensures %(A)s_at(a, t, n) >= 0, %(name)s_rel(%(A)s_at(a, t, n), %(B)s_at(b, t, n)),
+    decreases n
+{
+    if n > 0 {
+        let c = t[0];
+        assert(%(B)s_at(b, t, n) == %(B)s_at(%(B)s_step(b, c), t.drop_first(), n - 1));
+        if %(B)s_step(b, c) < 0 { %(B)s_at_neg(t.drop_first(), n - 1); }
+        %(name)s_noreenter(b, c);
+%(pn_disp)s
+        %(name)s_fwd2(%(A)s_step(a, c), %(B)s_step(b, c), t.drop_first(), n - 1);
+        assert(%(A)s_at(a, t, n) == %(A)s_at(%(A)s_step(a, c), t.drop_first(), n - 1));
+    }
+}""" % {"name": name, "A": a_name, "B": b_name, "pn_disp": pn_disp})
+        lemmas += 2
     return "\n".join(parts), {"start_states": len(starts), "pairs": len(pairs), "lemmas": lemmas, "end_states": sorted(set(a for a, b in pairs)), "cursets": cursets}, scan_names, sn
 
 
@@ -1732,3 +1757,233 @@ fn main() {}
 
 
 CERTS["uri_authority"] = lambda: authority_cert(dfa.reference("rfc3986.abnf", "authority"), dfa.reference("rfc3986.abnf", "userinfo"), dfa.reference("rfc3986.abnf", "host"), dfa.reference("rfc3986.abnf", "port"))
+
+
+def authority_compose_cert(A, UI, HO, PO, a_name="Authority"):
+    """G3b: [userinfo '@'] host [':' port] assembled from valid parts is a valid authority"""
+    pts = sorted(set(_points(A, [COLON, AT, LB, RB]) + _points(UI) + _points(HO) + _points(PO)))
+    s_ui, i_ui, _, _ = gen_component("ui", A, UI, a_name, "UserInfo", {0}, [], {AT}, False, {AT}, converse=True)
+    ui_pairs = product(A, UI, {0}, {AT}, pts)
+    ui_ok = set(a for a, b in ui_pairs if b >= 0 and b in UI.finals)
+    hs = set(A.step(a, AT) for a in ui_ok) | {0}
+    hs.discard(-1)
+    s_hn, i_hn, _, _ = gen_component("hn", A, HO, a_name, "Host", hs, [], {COLON, AT, LB}, True, {COLON}, emit_a=False, prelude=False, converse=True)
+    hbp = set()
+    for q in hs:
+        a1 = A.step(q, LB)
+        if a1 >= 0:
+            hbp.add((a1, HO.step(0, LB)))
+    s_hb, i_hb, _, _ = gen_component("hb", A, HO, a_name, "Host", hs, [], {RB}, False, set(), emit_a=False, emit_b=False, prelude=False, start_pairs=hbp, converse=True)
+    hn_pairs = product(A, HO, hs, {COLON, AT, LB}, pts)
+    hb_pairs = product(A, HO, set(), {RB}, pts, hbp)
+    hn_ok = set(a for a, b in hn_pairs if b >= 0 and b in HO.finals)
+    hb_ok = set(A.step(a, RB) for a, b in hb_pairs if b >= 0 and HO.step(b, RB) >= 0 and HO.step(b, RB) in HO.finals)
+    hb_ok.discard(-1)
+    heok = hn_ok | hb_ok
+    ps = set(A.step(a, COLON) for a in heok)
+    ps.discard(-1)
+    s_po, i_po, _, _ = gen_component("po", A, PO, a_name, "Port", ps, [], {AT}, True, set(), emit_a=False, prelude=False, converse=True)
+    # shape of a bracketed host: '[' ... ']' with the only ']' at the end
+    br_in = closure(HO, {HO.step(0, LB)}, {RB}, pts) if HO.step(0, LB) >= 0 else set()
+    br_closure = "\n".join("proof fn br_c%d(q: int, c: int)\n    requires q == %d, c != 93, Host_step(q, c) >= 0,\n    ensures br_in(Host_step(q, c)),\n{ }" % (q, q) for q in sorted(br_in))
+    br_disp = "\n".join("            %s q == %d { br_c%d(q, t[0]); }" % ("if" if j == 0 else "else if", q, q) for j, q in enumerate(sorted(br_in)))
+    src = "\n".join([s_ui, s_hn, s_hb, s_po, _set_spec("hs", hs), _set_spec("heok", heok), _set_spec("br_in", br_in)])
+    src += "\n" + br_closure + """
+proof fn br_after(q: int, c: int)
+    requires br_in(q), Host_step(q, 93) >= 0,
+    ensures Host_step(Host_step(q, 93), c) < 0,
+{ }
+/// inside the brackets: every character before the end is not ']' ... the first ']' ends the text
+proof fn br_scan(q: int, t: Seq<int>)
+    requires br_in(q), Host_run(q, t),
+    ensures t.len() >= 1, t[t.len() - 1] == 93, forall|i: int| 0 <= i < t.len() - 1 ==> #[trigger] t[i] != 93,
+    decreases t.len()
+{
+    if t.len() == 0 {
+        assert(!Host_final(q)) by { br_not_final(q); }
+    } else {
+        let c = t[0];
+        if Host_step(q, c) < 0 { Host_dead(t.drop_first()); }
+        if c == 93 {
+            let r = t.drop_first();
+            assert(Host_run(q, t) == Host_run(Host_step(q, 93), r));
+            if r.len() > 0 {
+                br_after(q, r[0]);
+                assert(Host_run(Host_step(q, 93), r) == Host_run(Host_step(Host_step(q, 93), r[0]), r.drop_first()));
+                assert(!Host_run(Host_step(Host_step(q, 93), r[0]), r.drop_first()));
+            }
+            assert(r.len() == 0);
+            assert(t.len() == 1);
+        } else {
+%(br_disp)s
+            br_scan(Host_step(q, c), t.drop_first());
+            assert forall|i: int| 0 <= i < t.len() - 1 implies #[trigger] t[i] != 93 by { if i > 0 { assert(t[i] == t.drop_first()[i - 1]); } }
+            assert(t[t.len() - 1] == t.drop_first()[t.len() - 2]);
+        }
+    }
+}
+proof fn br_not_final(q: int)
+    requires br_in(q),
+    ensures !Host_final(q),
+{ }
+/// FACT: a valid host that starts with '[' ends with its only ']'
+pub proof fn comp_host_bracket_shape(h: Seq<int>)
+    requires Host_run(0, h), h.len() > 0, h[0] == 91,
+    ensures h.len() >= 2, h[h.len() - 1] == 93, forall|i: int| 0 <= i < h.len() - 1 ==> #[trigger] h[i] != 93,
+{
+    if Host_step(0, 91) < 0 { Host_dead(h.drop_first()); }
+    br_scan(Host_step(0, 91), h.drop_first());
+    let t = h.drop_first();
+    assert forall|i: int| 0 <= i < h.len() - 1 implies #[trigger] h[i] != 93 by { if i > 0 { assert(h[i] == t[i - 1]); } }
+    assert(h[h.len() - 1] == t[t.len() - 1]);
+}
+// ---- closing lemmas ----
+proof fn zero_start()
+    ensures hs(0), ui_rel(0, 0),
+{ }
+proof fn ui_to_hs(a: int)
+    requires ui_okend(a),
+    ensures %(A)s_step(a, 64) >= 0, hs(%(A)s_step(a, 64)),
+{ }
+proof fn hn_start(q: int)
+    requires hs(q),
+    ensures hn_rel(q, 0),
+{ }
+proof fn hb_start_fwd(q: int)
+    requires hs(q), Host_step(0, 91) >= 0,
+    ensures %(A)s_step(q, 91) >= 0, hb_rel(%(A)s_step(q, 91), Host_step(0, 91)),
+{ }
+proof fn hn_to_heok(a: int)
+    requires hn_okend(a),
+    ensures heok(a),
+{ }
+proof fn hb_close_fwd(a: int, b: int)
+    requires hb_rel(a, b), b >= 0, Host_step(b, 93) >= 0, Host_final(Host_step(b, 93)),
+    ensures %(A)s_step(a, 93) >= 0, heok(%(A)s_step(a, 93)),
+{ }
+proof fn heok_close(a: int)
+    requires heok(a),
+    ensures %(A)s_final(a), %(A)s_step(a, 58) >= 0, po_rel(%(A)s_step(a, 58), 0),
+{ }
+proof fn po_close(a: int)
+    requires po_okend(a),
+    ensures %(A)s_final(a),
+{ }
+
+/// FACT (converse of the part certificates): [user info '@'] host [':' port] assembled from valid parts is a valid authority.
+/// k: position of the '@' (hs == k + 1) or unused (hs == 0); he: end of the host.
+pub proof fn compose_authority(s: Seq<int>, k: int, hs_: int, he: int)
+    requires
+        hs_ == 0 || (0 <= k && hs_ == k + 1 && hs_ <= s.len() && s[k] == 64 && UserInfo_run(0, s.subrange(0, k))),
+        0 <= hs_ <= he <= s.len(),
+        Host_run(0, s.subrange(hs_, he)),
+        he == s.len() || (s[he] == 58 && Port_run(0, s.subrange(he + 1, s.len() as int))),
+    ensures %(A)s_run(0, s),
+{
+    let n = s.len() as int;
+    zero_start();
+    if hs_ > 0 {
+        let sub = s.subrange(0, k);
+        UserInfo_run_at(0, sub);
+        ui_nostop_all(0, sub, k);
+        assert forall|i: int| 0 <= i < k implies !(#[trigger] s[i] == 64) by { assert(sub[i] == s[i]); assert(!(sub[i] == 64)); }
+        ui_span(s, 0, k, 0, 0);
+        let a = %(A)s_at(0, s, k);
+        ui_rel_okend(a, UserInfo_at(0, sub, k));
+        ui_to_hs(a);
+        %(A)s_at_next(0, s, k);
+    }
+    let q = %(A)s_at(0, s, hs_);
+    assert(hs(q));
+    let h = s.subrange(hs_, he);
+    let m = he - hs_;
+    Host_run_at(0, h);
+    if m > 0 && s[hs_] == 91 {
+        assert(h[0] == 91);
+        comp_host_bracket_shape(h);
+        if Host_step(0, 91) < 0 { Host_dead(h.drop_first()); }
+        hb_start_fwd(q);
+        %(A)s_at_next(0, s, hs_);
+        let a1 = %(A)s_step(q, 91);
+        let b1 = Host_step(0, 91);
+        // body between the brackets: positions hs_+1 .. he-1
+        let body = s.subrange(hs_ + 1, he - 1);
+        Host_at_add(0, h, 1, m - 2);
+        assert(Host_at(0, h, 1) == b1) by { assert(Host_at(Host_step(0, h[0]), h.drop_first(), 0) == Host_step(0, h[0])); }
+        Host_at_add(0, h, m - 1, 1);
+        if Host_at(0, h, m - 1) < 0 { Host_at_neg(h.skip(m - 1), 1); }
+        assert(h.skip(1).subrange(0, m - 2) =~= body);
+        Host_at_prefix(b1, h.skip(1), body, m - 2);
+        assert forall|i: int| hs_ + 1 <= i < he - 1 implies !(#[trigger] s[i] == 93) by { assert(h[i - hs_] == s[i]); }
+        hb_span(s, hs_ + 1, he - 1, a1, b1);
+        let ab = %(A)s_at(0, s, he - 1);
+        let bb = Host_at(b1, body, m - 2);
+        assert(bb == Host_at(0, h, m - 1));
+        Host_at_next(0, h, m - 1);
+        assert(h[m - 1] == 93);
+        hb_close_fwd(ab, bb);
+        %(A)s_at_next(0, s, he - 1);
+        assert(s[he - 1] == 93) by { assert(h[m - 1] == s[he - 1]); }
+    } else {
+        hn_start(q);
+        assert(h.subrange(0, m) =~= h);
+        if m > 0 { assert(h[0] == s[hs_]); }
+        hn_fwd2_from(s, hs_, he, q);
+        let ae = %(A)s_at(0, s, he);
+        hn_rel_okend(ae, Host_at(0, h, m));
+        hn_to_heok(ae);
+    }
+    let ae = %(A)s_at(0, s, he);
+    assert(heok(ae));
+    heok_close(ae);
+    if he < n {
+        %(A)s_at_next(0, s, he);
+        let a1 = %(A)s_step(ae, 58);
+        let sub = s.subrange(he + 1, n);
+        Port_run_at(0, sub);
+        po_nostop_all(0, sub, n - he - 1);
+        assert forall|i: int| he + 1 <= i < n implies !(#[trigger] s[i] == 64) by { assert(sub[i - he - 1] == s[i]); assert(!(sub[i - he - 1] == 64)); }
+        po_span(s, he + 1, n, a1, 0);
+        po_rel_okend(%(A)s_at(0, s, n), Port_at(0, sub, n - he - 1));
+        po_close(%(A)s_at(0, s, n));
+    }
+    %(A)s_at_run(0, s);
+}
+/// forward simulation of a plain host between two positions (no hypothesis on the characters: a host that does not
+/// start with '[' never contains ':', '@' or '[')
+proof fn hn_fwd2_from(s: Seq<int>, p0: int, p1: int, a: int)
+    requires 0 <= p0 <= p1 <= s.len(), %(A)s_at(0, s, p0) == a, hn_rel(a, 0), Host_at(0, s.subrange(p0, p1), p1 - p0) >= 0,
+        p1 > p0 ==> s[p0] != 91,
+    ensures %(A)s_at(0, s, p1) >= 0, hn_rel(%(A)s_at(0, s, p1), Host_at(0, s.subrange(p0, p1), p1 - p0)),
+{
+    let sub = s.subrange(p0, p1);
+    hn_first_not_bracket(a, sub, p1 - p0);
+    %(A)s_at_add(0, s, p0, p1 - p0);
+    assert forall|i: int| 0 <= i < p1 - p0 implies sub[i] == s.skip(p0)[i] by { }
+    %(A)s_at_prefix(a, sub, s.skip(p0), p1 - p0);
+}
+proof fn hn_first_not_bracket(a: int, t: Seq<int>, n: int)
+    requires hn_rel(a, 0), 0 <= n <= t.len(), n == t.len(), Host_at(0, t, n) >= 0, n > 0 ==> t[0] != 91,
+    ensures %(A)s_at(a, t, n) >= 0, hn_rel(%(A)s_at(a, t, n), Host_at(0, t, n)),
+{
+    if n > 0 {
+        let c = t[0];
+        assert(Host_at(0, t, n) == Host_at(Host_step(0, c), t.drop_first(), n - 1));
+        if Host_step(0, c) < 0 { Host_at_neg(t.drop_first(), n - 1); }
+        hn_first_step(a, c);
+        hn_fwd2(%(A)s_step(a, c), Host_step(0, c), t.drop_first(), n - 1);
+        assert(%(A)s_at(a, t, n) == %(A)s_at(%(A)s_step(a, c), t.drop_first(), n - 1));
+    }
+}
+proof fn hn_first_step(a: int, c: int)
+    requires hn_rel(a, 0), c != 91, Host_step(0, c) >= 0,
+    ensures %(A)s_step(a, c) >= 0, hn_rel(%(A)s_step(a, c), Host_step(0, c)), c != 58 && c != 64, Host_step(0, c) > 0,
+{ }
+} // verus!
+fn main() {}
+""" % {"A": a_name, "br_disp": br_disp}
+    infos = [i_ui, i_hn, i_hb, i_po]
+    return src, {"pairs": sum(i["pairs"] for i in infos), "lemmas": sum(i["lemmas"] for i in infos) + len(br_in) + 20}
+
+
+CERTS["uri_authority_compose"] = lambda: authority_compose_cert(dfa.reference("rfc3986.abnf", "authority"), dfa.reference("rfc3986.abnf", "userinfo"), dfa.reference("rfc3986.abnf", "host"), dfa.reference("rfc3986.abnf", "port"))
